@@ -857,11 +857,11 @@ theorem tokInv_init (w : List Nat) :
   · simp [scanTok_fst]
 
 /-- the look-ahead is the last token scanned, and scanning stops at end of input -/
-def ScanInv (w : List Nat) (ps : PState) : Prop :=
+def RecScanInv (w : List Nat) (ps : PState) : Prop :=
   ps.next = scanTok w (ps.ntok - 1) ∧ 1 ≤ ps.ntok ∧ ps.ntok ≤ w.length + 1
 
 def StepR.scanPost (w : List Nat) : StepR → Prop
-  | .cont ps' => ScanInv w ps'
+  | .cont ps' => RecScanInv w ps'
   | .done (.accept _) ps' => ps'.ntok ≤ w.length + 1
   | .done _ _ => True
 
@@ -872,7 +872,7 @@ theorem StepR.scanPost_of_not_accept {w : List Nat} {o : Outcome} {ps' : PState}
   | _ => trivial
 
 theorem recover_scanInv {T : PTables} {e : Nat} {w : List Nat} {ps ps' : PState} {tok : Nat × Nat}
-    (h : recover T e w ps = .ok (true, tok, ps')) (hI : ScanInv w ps) : ScanInv w ps' := by
+    (h : recover T e w ps = .ok (true, tok, ps')) (hI : RecScanInv w ps) : RecScanInv w ps' := by
   obtain ⟨k, r, rest, s', j, -, -, -, -, -, hnext, hntok, -, hskip, -⟩ := recover_true h
   obtain ⟨i1, i2, i3⟩ := hI
   cases j with
@@ -894,7 +894,7 @@ theorem recover_scanInv {T : PTables} {e : Nat} {w : List Nat} {ps ps' : PState}
       omega
 
 theorem doAct_scanInv {cfg : PCfg} (hT : NoShiftEOF cfg.T) (w : List Nat) {a : Act} {ps : PState}
-    {top : Nat} (ha : cfg.T.act top ps.next.2 = some a) (hI : ScanInv w ps) :
+    {top : Nat} (ha : cfg.T.act top ps.next.2 = some a) (hI : RecScanInv w ps) :
     (doAct cfg w a ps).scanPost w := by
   obtain ⟨i1, i2, i3⟩ := hI
   rcases hd : doAct cfg w a ps with ⟨o, ps'⟩ | ps'
@@ -915,7 +915,7 @@ theorem doAct_scanInv {cfg : PCfg} (hT : NoShiftEOF cfg.T) (w : List Nat) {a : A
     · exact ⟨by rw [hn, hk]; exact i1, by omega, by omega⟩
 
 theorem step_scanInv {cfg : PCfg} (hT : NoShiftEOF cfg.T) (w : List Nat) {ps : PState}
-    (hI : ScanInv w ps) : (step cfg w ps).scanPost w := by
+    (hI : RecScanInv w ps) : (step cfg w ps).scanPost w := by
   rcases step_decomp cfg w ps with ⟨o, ps', hs, ho⟩ | ⟨a, ps1, top, rest, hs, -, ha, h1⟩
   · rw [hs]; exact StepR.scanPost_of_not_accept ho
   · rw [hs]
@@ -924,7 +924,7 @@ theorem step_scanInv {cfg : PCfg} (hT : NoShiftEOF cfg.T) (w : List Nat) {ps : P
     · exact doAct_scanInv hT w ha (recover_scanInv hrec hI)
 
 theorem parseLoop_scanInv {cfg : PCfg} (hT : NoShiftEOF cfg.T) (w : List Nat) :
-    ∀ (fuel : Nat) (ps : PState), ScanInv w ps →
+    ∀ (fuel : Nat) (ps : PState), RecScanInv w ps →
     ∀ r ps', parseLoop cfg w fuel ps = (.accept r, ps') → ps'.ntok ≤ w.length + 1 := by
   intro fuel
   induction fuel with
@@ -951,7 +951,7 @@ theorem noShiftEOF_of_b {T : PTables} (h : noShiftEOFb T = true) : NoShiftEOF T 
   cases this
 
 theorem scanInv_init (w : List Nat) :
-    ScanInv w { states := [0], attrs := [.nil], next := scanTok w 0, ntok := 1, log := [], calls := 0 } :=
+    RecScanInv w { states := [0], attrs := [.nil], next := scanTok w 0, ntok := 1, log := [], calls := 0 } :=
   ⟨rfl, by simp, by simp⟩
 
 theorem parse_tokens_any {cfg : PCfg} {w : List Nat} {fuel : Nat} {old ps : PState} {r : Attr}
